@@ -1,12 +1,12 @@
 // lockfacts recomputes, from /repo's current source files, the structural facts the Lean models
 // assume when they treat a public method as one atomic event (DESIGN.md §3.4, fact F-lock):
 //
-//   for every struct type with a sync.Mutex / sync.RWMutex field, every exported method
-//     * takes one of the receiver's mutexes in its first statement and releases the same mutex by
-//       `defer` in its second statement;
-//     * if it only takes the read lock, neither it nor any unexported method of the receiver it
-//       (transitively) calls assigns to a field, an element or through a pointer (writes to plain
-//       local identifiers are fine).
+//	for every struct type with a sync.Mutex / sync.RWMutex field, every exported method
+//	  * takes one of the receiver's mutexes in its first statement and releases the same mutex by
+//	    `defer` in its second statement;
+//	  * if it only takes the read lock, neither it nor any unexported method of the receiver it
+//	    (transitively) calls assigns to a field, an element or through a pointer (writes to plain
+//	    local identifiers are fine).
 //
 // The extractor matches on types (a field whose type is sync.Mutex/RWMutex), not on names.
 // Output: one JSON object per method on stdout; exit status 0 always (the check script judges).
